@@ -111,7 +111,10 @@ def judge_tcpcl(trace, out):
         peer_model = {str(res): data for (res, data, _s) in trace.sent[peer] if not hasattr(res, 'exc')}
         seen_pop = set()
         for bid, res, _seq in pops:
-            if hasattr(res, 'exc'):
+            if hasattr(res, 'exc') and 'UnknownObject' in str(getattr(res.exc, '_dbus_error_name', '') or ''):
+                # the contact object had already left the bus (session closed): the bus answers, the method does not run
+                trace.labels.add('pop-after-object-removed')
+            elif hasattr(res, 'exc'):
                 out.fail('pop-announced-fails', 'recv_bundle_pop_data(%s) of an announced transfer failed: %r' % (bid, res))
             elif bid in peer_model and bytes(res) != peer_model[bid]:
                 out.fail('pop-wrong-data', 'recv_bundle_pop_data(%s) returned %d octets, sender queued %d' % (bid, len(res), len(peer_model[bid])))
